@@ -19,7 +19,9 @@ request grammar (one line, 12 tokens):
     ctor    dense  a=M b=N data=int matrix
             coo    a=M b=N data=rows i,j,v of the stored entries
             edges  a=n_nodes|none data=rows i,j
-            igraph a=N data=rows i,j  weights=vertex attribute  attr=edge values
+            igraph a=N data=rows i,j in the order (and orientation) of the listing = order of
+                   the edge ids  weights=vertex attribute  attr=edge values in that order
+                   (cls net: FromIGraph / Network.Load; spatial / geo: their Load)
     ops     comma list of copy ucopy pcopy saveload saveload_gml loadspatial
             loadspatial_gml loadgeo loadgeo_gml edgelist, the statements of a history on
             the live object  setw=a_b_k setwnone setattr[2|3]=a_b_c_k delattr[2|3] setadj=a_b_c
@@ -27,7 +29,9 @@ request grammar (one line, 12 tokens):
             (setattr / setattr2 / setattr3 act on the names link_weights / corr / aux_1)
 answer: N|n_links|density|adjacency|graph edges|weights|total|mean|link_attribute(link_weights)|
         node_weight_nsi stored on the embedded graph object|link_attribute(corr)|
-        link_attribute(aux_1)|graph.es.attributes() in order      or raise:<Exception>
+        link_attribute(aux_1)|graph.es.attributes() in order|
+        graph.es[link_weights] as i,j,value listed by edge|the same for corr|for aux_1|
+        average_link_attribute(link_weights)|average_link_attribute(corr)   or raise:<Exception>
 """
 import contextlib
 import io
@@ -92,6 +96,20 @@ def canon_quotient(x, num, den):
     if den != 0 and x == x and abs(x) != float("inf"):
         q = Fraction(num) / den
         if abs(Fraction(x) - q) <= Fraction(1, 10 ** 12) * abs(q):
+            return q
+    return Fraction(x) if x == x and abs(x) != float("inf") else x
+
+
+def canon_mean(x, row, n):
+    """`x` is the float mean of a matrix row whose reported (exact) entries are `row`: if it
+    agrees with sum(row)/n within 1e-12 of the row's mean magnitude sum(|row|)/n — the text
+    formats perturb every entry by < 2**-48 relative, and entries of opposite sign may cancel —
+    report the exact quotient, otherwise the float itself (stated tolerance of the comparison)."""
+    x = float(x)
+    if n != 0 and x == x and abs(x) != float("inf"):
+        q = sum(row, Fraction(0)) / n
+        scale = sum((abs(v) for v in row), Fraction(0)) / n
+        if abs(Fraction(x) - q) <= Fraction(1, 10 ** 12) * scale:
             return q
     return Fraction(x) if x == x and abs(x) != float("inf") else x
 
@@ -289,6 +307,8 @@ class Impl:
                 net.node_weights = w      # (RecurrenceNetwork takes node_weights itself)
             return self.set_attrs(net, c)
         if c.ctor == "igraph":
+            # the igraph object keeps the edges in the order (and, when directed, the
+            # orientation) the caller listed them: edge ids are NOT in adjacency order
             g = self.igraph.Graph(n=c.N, edges=[tuple(e) for e in c.edges],
                                   directed=c.directed)
             if w is not None:
@@ -296,7 +316,23 @@ class Impl:
             if c.V is not None:
                 g.es[ATTR] = [float(c.V[i][j]) for i, j in c.edges]
                 g.es[ATTR2] = [float(second_attr(c.V)[i][j]) for i, j in c.edges]
-            return self.Network.FromIGraph(g, silence_level=3)
+            if not c.form.startswith("file:"):
+                return self.Network.FromIGraph(g, silence_level=3)
+            # a file somebody else wrote (igraph itself, edges in the object's order)
+            fmt = c.form.split(":")[1]
+            p = self.path(fmt)
+            if fmt == "edgelist":     # written by hand: lines in the caller's order AND orientation
+                with open(p, "w", encoding="utf-8") as f:
+                    f.write("".join(f"{i} {j}\n" for i, j in c.edges))
+            else:
+                g.write(p, format=fmt)
+            kw = {"directed": c.directed} if fmt == "edgelist" else {}
+            if c.cls == "net":
+                return self.Network.Load(p, fmt, silence_level=3, **kw)
+            pg = self.path("grid")
+            self.grid(c).save(pg)
+            cls = self.SpatialNetwork if c.cls == "spatial" else self.GeoNetwork
+            return cls.Load((p, pg), fmt, silence_level=3, **kw)
         if c.ctor == "dense":
             kw["adjacency"] = c.A if c.form == "list" else np.array(c.A, dtype=adt).reshape(c.shape)
         elif c.ctor == "coo":
@@ -530,10 +566,23 @@ def observe(net):
         o["link_attribute3"] = [[exact(x) for x in row] for row in net.link_attribute(ATTR3)]
     except KeyError:
         o["link_attribute3"] = None
+    # average_link_attribute(name) = link_attribute(name).mean(axis=1): reported as the exact
+    # quotient (row sum of the reported matrix) / N when the float agrees with it
+    for key, mk, name in (("avg", "link_attribute", ATTR), ("avg2", "link_attribute2", ATTR2)):
+        try:
+            av = net.average_link_attribute(name)
+            o[key] = [canon_mean(x, row, N) for x, row in zip(av, o[mk])] \
+                if o[mk] is not None and len(av) == N else [Fraction(float(x)) for x in av]
+        except KeyError:
+            o[key] = None
     g = getattr(net, "grid", None)
     o["grid"] = None if g is None or not hasattr(g, "grid") else \
         {k: [exact(x) for x in np.asarray(v, dtype=float).ravel()] for k, v in sorted(g.grid().items())}
     o["link_attribute_names"] = list(net.graph.es.attributes())     # igraph keeps insertion order
+    # the edge attributes as the embedded graph object holds them, edge by edge (read without
+    # link_attribute(); listed by edge, so independent of the order of the edge ids)
+    for key, name in (("es", ATTR), ("es2", ATTR2), ("es3", ATTR3)):
+        o[key] = es_pairs(net, name)
     o["find_link_attribute"] = [bool(net.find_link_attribute(a)) for a in (ATTR, ATTR2, ATTR3)]
     # what the embedded graph object carries (written by save, read by FromIGraph / Load)
     if "node_weight_nsi" in net.graph.vs.attribute_names():
@@ -541,6 +590,23 @@ def observe(net):
     else:
         o["gvw"] = None
     return o
+
+
+def es_pairs(net, name):
+    """[(i, j, value)] of the edge attribute `name` of the embedded graph object, sorted by
+    edge (an undirected edge as (smaller, larger)); None when the graph has no such attribute"""
+    if name not in net.graph.es.attributes():
+        return None
+    d = bool(net.directed)
+    rows = sorted((lo_hi(d, int(a), int(b)), k, v) for k, ((a, b), v)
+                  in enumerate(zip(net.graph.get_edgelist(), net.graph.es[name])))
+    return [(e[0], e[1], "None" if v is None else exact(v)) for e, _, v in rows]
+
+
+def show_es(rows):
+    if rows is None:
+        return "none"
+    return ";".join(f"{i},{j},{v if isinstance(v, str) else show_rat(v)}" for i, j, v in rows) or "-"
 
 
 def show_obs(o):
@@ -553,7 +619,10 @@ def show_obs(o):
         "none" if o["gvw"] is None else show_rats(o["gvw"]),
         "none" if o["link_attribute2"] is None else show_mat(o["link_attribute2"], show_rat),
         "none" if o["link_attribute3"] is None else show_mat(o["link_attribute3"], show_rat),
-        ",".join(o["link_attribute_names"]) or "-"])
+        ",".join(o["link_attribute_names"]) or "-",
+        show_es(o["es"]), show_es(o["es2"]), show_es(o["es3"]),
+        "none" if o["avg"] is None else show_rats(o["avg"]),
+        "none" if o["avg2"] is None else show_rats(o["avg2"])])
 
 
 MODEL_OPS = {"saveload:gml": "saveload_gml", "loadspatial:gml": "loadspatial_gml",
@@ -675,6 +744,13 @@ def expected(c):
             e[key] = None
         else:
             e[key] = [[Fraction(0)] * N for _ in range(N)]
+    if N >= 1:      # average_link_attribute: row means of the specified (masked) matrix
+        for key, mk in (("avg", "link_attribute"), ("avg2", "link_attribute2")):
+            e[key] = None if e[mk] is None else [sum(row, Fraction(0)) / N for row in e[mk]]
+    if pairs:       # the embedded graph object holds the specified value on every edge
+        for key, W in (("es", V), ("es2", V2), ("es3", V3)):
+            e[key] = None if W is None else \
+                [(i, j, W[i][j]) for i, j in canon_edges(pairs, directed)]
     if has_grid:    # the spatial embedding the network was given (SpatialNetwork / GeoNetwork Load)
         if c.cls == "geo":
             e["grid"] = {"lat": [Fraction(x) for x in c.lats],
@@ -698,11 +774,31 @@ def close(a, b):
         return False
 
 
+def close_mean(a, b, rows):
+    if a is None or b is None:
+        return a is None and b is None
+    if len(a) != len(b):
+        return False
+    try:
+        for x, y, row in zip(a, b, rows):
+            scale = sum((abs(v) for v in row), Fraction(0)) / max(len(row), 1)
+            if abs(Fraction(x) - Fraction(y)) > Fraction(1, 10 ** 9) * scale:
+                return False
+    except (TypeError, ValueError, OverflowError):
+        return False
+    return True
+
+
 def first_difference(o, e):
     for k in ["N", "directed", "n_links", "link_density", "adjacency", "sp_A", "graph",
               "node_weights", "total_node_weight", "mean_node_weight", "link_attribute",
-              "link_attribute2", "link_attribute3", "gvw"]:
+              "link_attribute2", "link_attribute3", "gvw", "es", "es2", "es3"]:
         if k in e and not close(o[k], e[k]):
+            return k
+    # row means: tolerance relative to the mean magnitude of the specified row (entries of
+    # opposite sign may cancel, and a text format perturbs each entry by < 2**-48 relative)
+    for k, mk in (("avg", "link_attribute"), ("avg2", "link_attribute2")):
+        if k in e and not close_mean(o[k], e[k], e[mk]):
             return k
     if "grid" in e:
         g = o.get("grid")
@@ -906,6 +1002,41 @@ def cases_for(rng, N, directed, edges, quick, rich):
     # igraph objects
     add(ctor="igraph", form="graph", edges=list(edges))
     add(ctor="igraph", form="graph-noweights", edges=list(edges), w=None)
+    # igraph objects and files whose edges are in NO particular order (edge ids do not follow
+    # the adjacency order; an undirected edge listed in either orientation): FromIGraph / Load
+    # keep that object, and everything that loops over graph.es must not care
+    def own_order():
+        es = [(j, i) if (not directed and rng.random() < 0.5) else (i, j) for i, j in edges]
+        rng.shuffle(es)
+        return es
+
+    def attr_history():
+        # attributes assigned AFTER the object was adopted, then read back / copied / saved
+        h = ["setattr%s=%d_%d_%d_%d" % (rng.choice(["", "2", "3"]), rng.randrange(1, 17),
+                                        rng.randrange(1, 17), rng.randrange(0, 17),
+                                        rng.choice([0, 0, 0, -35, 35]))]
+        return h + (history_ops(rng) if rng.random() < 0.6 else
+                    [rng.choice(["copy", "regraph", "saveload:" + rng.choice(FORMATS[:3])])]
+                    if rng.random() < 0.7 else [])
+
+    add(ctor="igraph", form="graph-shuffled", edges=own_order())
+    add(ctor="igraph", form="graph-shuffled", edges=own_order(), V=None, ops=attr_history())
+    ffmts = FORMATS[:3] if rich else [rng.choice(FORMATS[:3])]
+    for f in ffmts:
+        add(ctor="igraph", form="file:" + f, edges=own_order())
+        add(ctor="igraph", form="file:" + f, edges=own_order(), V=None, ops=attr_history())
+    if edges and max(max(e) for e in edges) == N - 1:
+        # a plain edge list file stores neither weights nor attributes (and no isolated
+        # trailing nodes): the documented way to import somebody else's network
+        add(ctor="igraph", form="file:edgelist", edges=own_order(), w=None, V=None,
+            ops=attr_history())
+    if N >= 1 and rng.random() < (0.5 if not rich else 1.0):
+        f = rng.choice(FORMATS[:3])
+        add(cls="spatial", ctor="igraph", form="file:" + f, edges=own_order(),
+            ops=attr_history() if rng.random() < 0.5 else [])
+        lats2 = [rng.choice([0.0, 60.0, -60.0, 45.0, 30.0]) for _ in range(N)]
+        add(cls="geo", wtype=1, lats=lats2, ctor="igraph", form="file:" + f, edges=own_order(),
+            w=rng.choice([None, w]), ops=attr_history() if rng.random() < 0.5 else [])
     # operations
     add(form="list", ops=["copy"], **dense)
     add(form="list", ops=["ucopy"], **dense)
@@ -1139,7 +1270,10 @@ def run(ctx):
                 "(empty / single link / sparse / half / dense / complete / with isolated nodes) on "
                 "up to %d nodes, each through dense list, ndarray, scipy csc/csr/coo/lil/dok, edge "
                 "lists (one / other / mixed / both orientations, repeated entries, n_nodes given or "
-                "inferred), sparse matrices with stored zeros, igraph object, copy, undirected_copy, "
+                "inferred), sparse matrices with stored zeros, igraph object (edge ids sorted or in no "
+                "particular order, undirected edges in either orientation), files written by igraph "
+                "itself or by hand (edge list) loaded by Network / SpatialNetwork / GeoNetwork.Load, "
+                "set_link_attribute on the adopted object, copy, undirected_copy, "
                 "permuted_copy(identity), edge_list() round trip, save->Load in "
                 "graphml/graphmlz/pickle/gml (format given or detected), histories of 2-8 statements "
                 "on one live object (reassign weights / attribute / adjacency, save, load, copy, "
@@ -1163,7 +1297,7 @@ def run(ctx):
                     gs = rng.sample(gs, 64 if quick else 400)
                 specs += [(N, d, g, N <= 2 or rng.random() < (0.15 if quick else 0.3)) for g in gs]
         kinds = ["empty", "single", "sparse", "half", "dense", "full", "isolated"]
-        for _ in range(110 if quick else 900):
+        for _ in range(110 if quick else 640):
             N = rng.randrange(2, 13 if quick else 31)
             d = rng.random() < 0.5
             specs.append((N, d, random_graph(rng, N, d, rng.choice(kinds)),
